@@ -50,7 +50,7 @@ fn gen_long(rng: &mut Rng) -> Value {
     let mut adj = vec![];
     for _ in 0..1 + rng.below(3) {
         let t = rng.pick(&orig[orig.len() * 2 / 3..]).clone();
-        let (l, c) = (t[0].as_i64().unwrap(), t[1].as_i64().unwrap() + 1 + rng.range(0, 1));   // strictly inside (or at) a stretch
+        let (l, c) = (t[0].as_i64().unwrap(), t[1].as_i64().unwrap() + rng.range(0, 3));   // at the start of, strictly inside, or at the end of a stretch
         let (dl, dc) = (rng.range(0, 2), rng.range(0, 5) * scale);
         adj.push(json!([l + dl, c + dc, 0, l, c, -1, 0]));
     }
@@ -75,6 +75,11 @@ pub fn gen(rng: &mut Rng, size: usize) -> Value {
     let orig: Vec<Value> = sorted_positions(rng, no).iter().enumerate()
         .map(|(k, (l, c))| json!([l, c, k % 3, k, 100 + k, if k % 4 == 0 { 0 } else { -1 }, if k % 5 == 0 { 1 } else { 0 }])).collect();
     let adj: Vec<Value> = sorted_positions(rng, na).iter()
-        .map(|(l, c)| { let (dl, dc) = (rng.range(0, 3), rng.range(0, 9)); json!([l + dl, c + dc, 0, l, c, -1, 0]) }).collect();
+        .map(|(l, c)| {
+            let (dl, dc) = (rng.range(0, 3), rng.range(0, 9));
+            // an adjustment token need not name a source (or may name another one, or a name): its stretch is the same
+            let (src, nm) = match rng.below(8) { 0 => (-1, -1), 1 => (1, -1), 2 => (0, 0), _ => (0, -1) };
+            json!([l + dl, c + dc, src, l, c, nm, 0])
+        }).collect();
     json!({"op": "adjust", "orig": orig, "adj": adj, "shuffle": 1 + rng.below(1000)})
 }
